@@ -1149,6 +1149,12 @@ func parseBMPMessage(data []byte, optionsFunc func(BMPPeerHeader) []*bgp.Marshal
 	if err != nil {
 		return nil, err
 	}
+	// The message ends where its length field says, which must lie inside
+	// the data: slicing past len(data) into spare capacity would parse
+	// whatever stale bytes follow the message.
+	if msg.Header.Length < BMP_HEADER_SIZE || uint64(msg.Header.Length) > uint64(len(data)) {
+		return nil, fmt.Errorf("invalid BMP message length %d (%d bytes available)", msg.Header.Length, len(data))
+	}
 	data = data[BMP_HEADER_SIZE:msg.Header.Length]
 
 	switch msg.Header.Type {
@@ -1200,7 +1206,11 @@ func SplitBMP(data []byte, atEOF bool) (advance int, token []byte, err error) {
 	if err = tmpHdr.DecodeFromBytes(data[:BMP_HEADER_SIZE]); err != nil {
 		return 0, nil, nil
 	}
-	if len(data) < int(tmpHdr.Length) {
+	if tmpHdr.Length < BMP_HEADER_SIZE {
+		// a token shorter than the header it was read from would not advance the scanner
+		return 0, nil, fmt.Errorf("invalid BMP message length %d", tmpHdr.Length)
+	}
+	if uint64(len(data)) < uint64(tmpHdr.Length) {
 		return 0, nil, nil
 	}
 	return int(tmpHdr.Length), data[:tmpHdr.Length], nil
